@@ -311,6 +311,11 @@ class Interp:
         if a == b:
             return a
         dom = self.dom
+        jv = getattr(dom, "join_values", None)
+        if jv is not None:
+            r = jv(a, b, self)
+            if r is not None:
+                return r
         if isinstance(a, Sym) or isinstance(b, Sym):
             sa, sb = self.to_sym(a), self.to_sym(b)
             return self._join_sym(sa, sb)
